@@ -358,6 +358,109 @@ def restart (s : Sys) : Sys :=
   { s with jobEvs := [], jcEvs := [], jobCache := s.jobs, jcCache := s.jcs, storeQ := [], ctrlQ := [],
            counter := storeRecover s.jobs, cfgQ := {}, indQ := {}, faults := [] }
 
+/-! ### Process start with a stale initial LIST and a non-atomic `Recover`
+
+What client-go and the API server really allow at a process start, and what `restart` above
+rules out (probes/simaudit/REPORT.md G1, G2):
+
+* the reflector's initial LIST uses `resourceVersion="0"` and may be served from the API server's
+  watch cache, i.e. be OLDER than the last write of the previous process.  The old process's cache
+  is by construction "server truth minus the undelivered events", so every state reached by
+  applying only the first `k` undelivered events to it is a legal initial LIST; the remaining
+  events are what the watch then replays.  Per resource independently (`kj`, `kc`).
+* `Store.Recover` registers its handler, waits for the cache to be synced and only THEN reads the
+  lister: `w` further Job events are applied to the cache in that window.  Each of them is in the
+  lister that `Recover` counts from AND is notified to the store's handler (the queue
+  controller's own handler registers after `Recover`, it is not notified of them).
+
+These functions are deliberately NOT actions of `Proofs/QueueEnv.Act` (like the driver's
+`q.extstart`): the invariant `Inv` is false after them — `Props/C05.lean` has the witnesses
+(`f27_recover_window_witness`, `f28_stale_initial_list_witness`); the envelope names are
+E-FreshInitialList (`kj = jobEvs.length`) and E-QuiescentRecover (`w = 0`), under which
+`restartStaleWin` coincides with `restart` on the Job side (`restartStaleWin_fresh_jobs`). -/
+
+/-- a watch event applied to a cache without notifying anybody (it is part of an initial LIST);
+same function as `Proofs/QueueEnv.applyEv` -/
+def cacheApplyJob (cache : List JobV) : Ev → List JobV
+  | .add j => setJob cache j
+  | .update j => setJob cache j
+  | .delete j => match findJob cache j.name with | none => cache | some _ => delJob cache j.name
+
+def cacheApplyJC (cache : List JCV) : Bool × JCV → List JCV
+  | (true, jc) => setJC cache jc
+  | (false, jc) => delJC cache jc.name
+
+/-- `deliverJob` while the store's handler is the only registered one (inside `Recover`) -/
+def deliverJobStoreOnly (s : Sys) : Sys :=
+  match s.jobEvs with
+  | [] => s
+  | ev :: rest =>
+    let s := { s with jobEvs := rest }
+    match ev with
+    | .add j | .update j =>
+      let note := match findJob s.jobCache j.name with
+        | some old => Note.update old j
+        | none => Note.add j
+      { s with jobCache := setJob s.jobCache j, storeQ := s.storeQ ++ [note] }
+    | .delete j =>
+      match findJob s.jobCache j.name with
+      | none => s
+      | some old => { s with jobCache := delJob s.jobCache j.name, storeQ := s.storeQ ++ [.delete old] }
+
+def iterN (f : Sys → Sys) : Nat → Sys → Sys
+  | 0, s => s
+  | n + 1, s => iterN f n (f s)
+
+/-- process restart whose initial LIST is the old cache plus the first `kj` / `kc` undelivered
+events (the rest stays undelivered: the watch replays it), and in which `w` Job events are
+delivered between the registration of the store's handler and the lister read of `Recover`. -/
+def restartStaleWin (s : Sys) (kj kc w : Nat) : Sys :=
+  let s0 : Sys := { s with
+    jobEvs := s.jobEvs.drop kj, jcEvs := s.jcEvs.drop kc,
+    jobCache := (s.jobEvs.take kj).foldl cacheApplyJob s.jobCache,
+    jcCache := (s.jcEvs.take kc).foldl cacheApplyJC s.jcCache,
+    storeQ := [], ctrlQ := [], counter := [], cfgQ := {}, indQ := {}, faults := [] }
+  let s1 := iterN deliverJobStoreOnly w s0
+  { s1 with counter := storeRecover s1.jobCache }
+
+/-- stale initial LIST, atomic `Recover` -/
+def restartStale (s : Sys) (kj kc : Nat) : Sys := restartStaleWin s kj kc 0
+
+/-! ### Relist after a watch failure
+
+The reflector's watch ends (410 Gone / any error), it LISTs again and `DeltaFIFO.Replace` +
+the shared informer pair the cached and the listed object BY KEY ONLY (namespace/name): in key
+order, `add` for a key the cache did not hold, `update(cachedOld, listed)` for a key on both
+sides whose resourceVersion differs — the two may be DIFFERENT Jobs (a Job was removed and
+another one took its name while the watch was down: other UID, other JobConfig) —, nothing for
+an unchanged object; then, in key order, `delete` with the last CACHED state
+(`cache.DeletedFinalStateUnknown`) for every key that is gone.  The undelivered events are
+dropped: the new watch starts at the list's version.  `harness/sim.FakeInformer.Relist`.
+
+Like `restartStaleWin`, not an action of `Proofs/QueueEnv.Act`: a history in which a name is
+taken again is outside E-FreshName, and `Inv` does not survive a relist that coalesces the start
+of a Job with its removal (`Props/C05.f35_relist_leak_witness`).  The interruption itself
+(`q.outage`) is state of the driver only: it stops `q.deliver jobs` / `q.flush` from delivering
+Job events until `q.relist` or a restart. -/
+
+def insertByName (j : JobV) : List JobV → List JobV
+  | [] => [j]
+  | x :: rest => if j.name < x.name then j :: x :: rest else x :: insertByName j rest
+
+def sortByName (l : List JobV) : List JobV := l.foldl (fun acc j => insertByName j acc) []
+
+/-- the notifications of a relist of `jobs` against `cache` -/
+def relistNotes (cache jobs : List JobV) : List Note :=
+  (sortByName jobs).filterMap (fun j =>
+    match findJob cache j.name with
+    | none => some (Note.add j)
+    | some old => if old.rv = j.rv then none else some (Note.update old j)) ++
+  ((sortByName cache).filter (fun o => (findJob jobs o.name).isNone)).map Note.delete
+
+def relist (s : Sys) : Sys :=
+  let notes := relistNotes s.jobCache s.jobs
+  { s with jobEvs := [], jobCache := s.jobs, storeQ := s.storeQ ++ notes, ctrlQ := s.ctrlQ ++ notes }
+
 /-- external create of a Job -/
 def userAddJob (s : Sys) (j : JobV) : Sys :=
   if s.jobs.any (·.name = j.name) then s
